@@ -125,7 +125,19 @@ def r14c(run):
     """one-sided sign handling in front of a %z parse"""
     f = run.repo.func(TR, "TypeTransformer.to_datetime")
     fa = analysis(f)
-    zs = [(n, c) for n, c in fa.all_calls() if call_attr(c) == "strptime" and "%z" in unparse(c)]
+    def _has_z(n, c) -> bool:
+        """the format handed to strptime contains %z, written in the call or in a definition of a name it uses"""
+        if "%z" in unparse(c):
+            return True
+        for a in c.args[1:] + [k.value for k in c.keywords]:
+            for nm in names_in(a):
+                for d in fa.rd.defs_of(n, nm):
+                    if d.kind == "stmt" and isinstance(d.ast, ast.Assign) and any(
+                            isinstance(x, ast.Constant) and isinstance(x.value, str) and "%z" in x.value
+                            for x in ast.walk(d.ast.value)):
+                        return True
+        return False
+    zs = [(n, c) for n, c in fa.all_calls() if call_attr(c) == "strptime" and _has_z(n, c)]
     manual = [(n, c) for n, c in fa.all_calls() if call_attr(c) == "timezone" and c.args
               and isinstance(c.args[0], ast.Call) and call_attr(c.args[0]) == "timedelta"]
     run.floor("R14c", "UTC-offset parses (%z attempts or hand-built offsets) in to_datetime", len(zs) + len(manual), 1)
@@ -351,11 +363,19 @@ def r14e(run):
             ok = any(isinstance(x, ast.IfExp) and unparse(x.test) == U and "utc" in unparse(x.body)
                      for ex in exprs for x in ast.walk(ex))
         if isinstance(v, ast.Name):
-            # some definition of v reaching the return re-attaches UTC under the flag
-            for d in fa.rd.defs_of(r, v.id):
-                if d.kind == "stmt" and isinstance(d.ast, ast.Assign) and "tzinfo" in unparse(d.ast.value) \
-                        and (U, True) in _facts(fa, d):
-                    ok = True
+            # some definition of v reaching the return (followed through plain copies) re-attaches UTC under the flag
+            seen_d = set()
+            work = [(r, v.id)]
+            while work:
+                at, nm = work.pop()
+                for d in fa.rd.defs_of(at, nm):
+                    if d in seen_d or d.kind != "stmt" or not isinstance(d.ast, ast.Assign):
+                        continue
+                    seen_d.add(d)
+                    if isinstance(d.ast.value, ast.Name):
+                        work.append((d, d.ast.value.id))
+                    elif "tzinfo" in unparse(d.ast.value) and (U, True) in _facts(fa, d):
+                        ok = True
         run.check("R14e", f, f"`{norm_stmt(r.ast)}` (parsed from the stripped text) re-attaches UTC when the marker was seen",
                   ok, construct=f"UTC flag ignored on a return of {call_attr(parsed[0])}(data)",
                   message=f"to_datetime returns `{unparse(parsed[0])[:50]}` of the text whose 'Z'/'UTC'/'GMT' marker was "
